@@ -137,6 +137,14 @@ def _gen_network(rng):
                                 mx, my = (pa[0], my) if rng.random() < 0.5 else (mx, pa[1])
                         pts.append([mx, my])
                 pts.append(list(pb))
+                vee = False
+                if flavour == "axis" and pa[1] == pb[1] and pa[0] != pb[0] and rng.random() < 0.35:
+                    # ties: a symmetric V-shaped street (apex above or below the middle of a horizontal street; lattice
+                    # coordinates, so a fix on the axis of the V is EXACTLY equidistant from its two legs, with two
+                    # different nearest points)
+                    hgt = rng.choice([-1, 1]) * sp * rng.choice([0.25, 0.5])
+                    pts = [list(pa), [(pa[0] + pb[0]) / 2.0, pa[1] + hgt], list(pb)]
+                    vee = True
                 if rng.random() < 0.5:
                     pts.reverse()
                     a2, b2 = b, a
@@ -144,6 +152,8 @@ def _gen_network(rng):
                     a2, b2 = a, b
                 orient = rng.choice([0, 0, 0, 1, -1])
                 edges.append({"id": eid, "s": a2, "t": b2, "pts": pts, "o": orient})
+                if vee:
+                    edges[-1]["vee"] = 1
                 eid += rng.randint(1, 9)
     if not edges:
         pa, pb = nodes[0], nodes[1]
@@ -218,7 +228,16 @@ def _gen_track(rng, net):
             nb = [f for f in edges if f is not e and ({f["s"], f["t"]} & {e["s"], e["t"]})]
             if nb:
                 e = rng.choice(nb)
-        if kind == "on":
+        vees = [f for f in edges if f.get("vee") and len(f["pts"]) == 3]
+        if vees and rng.random() < 0.3:
+            # a fix on the axis of a V-shaped street: exactly equidistant from its two legs
+            f = rng.choice(vees)
+            apex, end = f["pts"][1], f["pts"][0]
+            hgt = end[1] - apex[1]
+            p = [apex[0], apex[1] + hgt * rng.choice([0.25, 0.5, 0.75, 1.5])]
+            kind = "near"
+            M.CTX.count("fix_equidistant_from_two_legs_of_one_edge")
+        elif kind == "on":
             p = _point_on(rng, e)
         elif kind == "vertex":
             p = list(rng.choice(e["pts"]))
@@ -482,7 +501,7 @@ def run_case(case, ctx):
         # is NOW
         import copy as _copy
         from tracklib.core.spatial_index import SpatialIndex
-        dx, dy = 1024.5, -768.25
+        dx, dy = 2.5, -1.5                  # a correction of a few metres: what was near stays near
         for e in network.EDGES.values():
             for o in e.geom.getObsList():
                 o.position.setX(o.position.getX() + dx)
